@@ -271,6 +271,28 @@ func c10Criteria(env *core.Env, cc *c10Coll, cv fhirpath.EvaluateOption, expectI
 		env.Cover("all")
 		expectBool("all", "%c.all("+fs+".exists())", all)
 		expectBool("all", "%c.all("+fs+".empty())", len(with) == 0)
+		// projections made of path steps and an indexer: still one evaluation per item
+		for _, proj := range []string{fs + "[0]", fs + ".first()", fs + "[1]", "$this." + fs + "[0]", fs + ".last()", fs + ".tail()"} {
+			selp := c10Eval(env, "%c.select("+proj+")", cv)
+			if !selp.IsValue() {
+				continue
+			}
+			var concat system.Collection
+			okAll := true
+			for i := range cc.C {
+				one := c10Eval(env, "%c.select("+proj+")", evalopts.EnvVariable("c", system.Collection{cc.C[i]}))
+				if !one.IsValue() {
+					okAll = false
+					break
+				}
+				concat = append(concat, one.Raw...)
+			}
+			if okAll {
+				if ok, why := sameItems(selp.Raw, orEmpty(concat)); !ok {
+					env.Violatef("C10/select/not-concatenation/indexed-projection", "%s: `%%c.select(%s)` differs from the concatenation of the per-item results: %s", cc.Desc, proj, why)
+				}
+			}
+		}
 		// select(f) = concatenation over items; compared with the per-item evaluation and the tree
 		env.Cover("select")
 		sel := c10Eval(env, "%c.select("+fs+")", cv)
@@ -736,6 +758,7 @@ func c10EnvColls() []*c10Coll {
 		mk("complex-dups", []any{p.Name[0], p.Name[1], proto.Clone(p.Name[0])}, []string{"c:0", "c:1", "c:0"}),
 		mk("mixed", []any{system.Integer(1), system.String("1"), p.Name[0], system.Integer(1)}, []string{"n:1", "s:1", "c:0", "n:1"}),
 		// primitive-typed elements that hold no value (unit only, data-absent-reason): they cannot become System values
+		mk("primitive-first-then-equal-complex", []any{system.Integer(7), p.Name[0], system.Integer(7), proto.Clone(p.Name[0]), system.String("x"), p.Name[1], proto.Clone(p.Name[0])}, []string{"n:7", "c:0", "n:7", "c:0", "s:x", "c:1", "c:0"}),
 		mk("valueless-primitives", []any{qNoValue("mg"), decNoValue(), qNoValue("mg"), system.Integer(1), qNoValue("kg")}, []string{"c:qmg", "c:d", "c:qmg", "n:1", "c:qkg"}),
 	}
 }
